@@ -113,7 +113,14 @@ def main(tier: str) -> int:
                 if len(samples) < 4 and exc and taken[k] == 1 and cls not in [s["class"] for s in samples]:
                     samples.append({"class": cls, "offending_row": rows[-1], "position": len(rows), "exception": exc})
     # streams without any options row: nothing at all, only empty frames (with and without metadata) -- Tier 1: R1-no-options-row at the end of the stream
-    degenerate = {"zero-bytes": b"", "one-empty-frame": wire.enc_delimited([{"rows": []}]), "three-empty-frames": wire.enc_delimited([{"rows": []}] * 3),
+    _bn = {"t": "bn", "v": "b"}
+    _opt = {"r": "opt", "name": "", "pt": 1, "gen": False, "star": False, "mn": 8, "mp": 0, "md": 0, "lt": 1, "ver": 1}
+    _tr = {"r": "triple", "s": _bn, "p": _bn, "o": _bn}
+    degenerate = {"zero-bytes": b"",
+                  # the first non-empty frame has no options row; a LATER frame starts with one (R1: the options row must be the first row of the stream)
+                  "statement-frame-before-options-frame": wire.enc_delimited([{"rows": [_tr]}, {"rows": [_opt, _tr]}]),
+                  "entry-frame-before-options-frame": wire.enc_delimited([{"rows": [{"r": "name", "id": 1, "v": "x"}]}, {"rows": [_opt, _tr]}]),
+                  "empty-then-statement-frame-before-options-frame": wire.enc_delimited([{"rows": []}, {"rows": [_tr]}, {"rows": [_opt, _tr]}]), "one-empty-frame": wire.enc_delimited([{"rows": []}]), "three-empty-frames": wire.enc_delimited([{"rows": []}] * 3),
                   "empty-frames-with-metadata": wire.enc_delimited([{"rows": [], "meta": {"k": b"v"}}, {"rows": []}])}
     for label, data in degenerate.items():
         for integ in ("generic", "rdflib"):
@@ -128,7 +135,7 @@ def main(tier: str) -> int:
                 except Exception:  # noqa: BLE001
                     continue
                 run.violation({"class": "missing-options-row", "clause": "accepted", "integ": integ, "ptype": 0, "degenerate": label, "parse": entry},
-                              f"a stream without any options row ({label}) was parsed by {integ} {entry} without any exception: {str(got)[:80]}", {"hex": data.hex()})
+                              f"a stream that does not start with an options row ({label}) was parsed by {integ} {entry} without any exception: {str(got)[:80]}", {"hex": data.hex()})
     missing = [c for c in list(HEADER) + ["entry-id-beyond-size", "reference-beyond-size", "reference-to-unfilled-slot", "datatype-reference-zero",
                                           "datatype-reference-table-disabled", "repeated-term-in-quoted-triple",
                                           "row-kind-forbidden-by-physical-type", "triple-outside-graph"] if c not in per_class]
